@@ -139,24 +139,6 @@ theorem tlvVar_tag (env : Env) (tag : Nat) (ty : Ty) (v : Val) (h : WT env ty v)
 
 /-! ## loops over encodings -/
 
-theorem encElems_length_ge (env : Env) (e : Ty) : ∀ (vs : List Val), WTs env e vs →
-    vs.length ≤ (encElems env e vs).length
-  | [], _ => by simp
-  | v :: vs, h => by
-    simp only [WTs] at h
-    have := encVar_req_pos env 0 e none v h.1
-    have := encElems_length_ge env e vs h.2
-    simp only [encElems, List.length_append, List.length_cons]; omega
-
-theorem encPairs_length_ge (env : Env) (k v : Ty) : ∀ (kvs : List (Val × Val)), WTp env k v kvs →
-    kvs.length ≤ (encPairs env k v kvs).length
-  | [], _ => by simp
-  | (a, b) :: kvs, h => by
-    simp only [WTp] at h
-    have := encVar_req_pos env 0 k none a h.1
-    have := encPairs_length_ge env k v kvs h.2.2
-    simp only [encPairs, List.length_append, List.length_cons]; omega
-
 theorem parseElems_enc (env : Env) (e : Ty) : ∀ (vs : List Val), (∀ v ∈ vs, PR env v) →
     WTs env e vs → ∀ (total fuel : Nat) (t : Bytes),
       (encElems env e vs).length + 2 ≤ fuel → (encElems env e vs).length ≤ total →
